@@ -39,6 +39,14 @@
 //!    never recycled, and a late signal carries the id of a finished connection, never theirs.
 //!    W3 exists because a slip of the kind "the neighbouring / the latest connection" would
 //!    otherwise only ever hit adversaries, whose fate is not asserted.
+//!  * Late bystanders ("iso-w4-0", "iso-w4-1", ...: `AdvAct::Evict`) do connect after adversary
+//!    connections have ended - on purpose into the slab slot a connection has just lost: an
+//!    adversary in good standing sends a packet that the ROUTER answers by dropping it (v5 with
+//!    a DISCONNECT carrying a reason code, otherwise silently), keeps its socket open, and with no
+//!    await in between the bystander's CONNECT is written, so that it is handled right behind
+//!    the offending packet. This is where a signal of the dropped connection's task would act
+//!    on a later connection, which C14 forbids - and where R5 allows it if the signal is late
+//!    *legitimately*. The gate `late_ok` keeps the two apart; the argument is written there.
 //!  * The adversaries' client ids are "iso-w" (a prefix of the witnesses' ids "iso-w1",
 //!    "iso-w2", "iso-w3"), "iso-w10" (an extension) and "adv".
 
@@ -53,7 +61,7 @@ use rumqttd::{ConnectionSettings, RouterConfig};
 use serde::{Deserialize, Serialize};
 use serde_json::json;
 
-pub const ISOLATION_RULE: &str = "E5 isolation (e5_isolation): the e5_flow pair as witnesses (subscriber W2 'iso-w2' on f/# and optionally g/#, publisher W1 'iso-w1' with 20-200 messages in chunks closed by PINGREQ, optionally holding a QoS 0 subscription on g/a itself; optionally a bystander W3 'iso-w3' connected after the adversaries' initial connects) among adversaries 'iso-w', 'iso-w10', 'adv' on real connection tasks (own listener, 8 KiB packet limit), whose generated steps are interleaved with the witness script: plain CONNECT (again on a new stream = takeover of its own connection; storms of up to 5 without waiting), SUBSCRIBE to the witnesses' filters, '#', '+/a', x/#, valid PUBLISH on the witnesses' topics (QoS 0/1: part of the oracle, positioned by a PINGREQ barrier, optional if the barrier fails) and others (QoS 2, never released, only there), Stall (subscribes f/#, g/# and optionally '#', '+/#' with QoS 0-1 and never reads again), unsolicited PUBACK/PUBREC/PUBREL/PUBCOMP, second CONNECT, SUBSCRIBE to '$x' and malformed filters, PUBLISH with wildcard / invalid UTF-8 / empty topic (outside f/ and g/), QoS 3, frames cut at a generated byte (written at once or byte by byte) followed by close, garbage, an oversized frame, DISCONNECT+close, abrupt close, close of the sending direction only. Oracle: e5_flow's on the witnesses (exact ordered delivery incl. the adversaries' valid publishes, exact acknowledgements to W1, window, liveness by the quiescence detector), all witness tasks alive and answering PINGREQ at the end, no panic in any connection task or the router. Non-trivial: >=1 adversary connection closed by the broker, stalled or taken over, while the witnesses exchanged >=20 messages.";
+pub const ISOLATION_RULE: &str = "E5 isolation (e5_isolation): the e5_flow pair as witnesses (subscriber W2 'iso-w2' on f/# and optionally g/#, publisher W1 'iso-w1' with 20-200 messages in chunks closed by PINGREQ, optionally holding a QoS 0 subscription on g/a itself; optionally a bystander W3 'iso-w3' connected after the adversaries' initial connects) among adversaries 'iso-w', 'iso-w10', 'adv' on real connection tasks (own listener, 8 KiB packet limit), whose generated steps are interleaved with the witness script: plain CONNECT (again on a new stream = takeover of its own connection; storms of up to 5 without waiting), SUBSCRIBE to the witnesses' filters, '#', '+/a', x/#, valid PUBLISH on the witnesses' topics (QoS 0/1: part of the oracle, positioned by a PINGREQ barrier, optional if the barrier fails) and others (QoS 2, never released, only there), Stall (subscribes f/#, g/# and optionally '#', '+/#' with QoS 0-1 and never reads again), unsolicited PUBACK/PUBREC/PUBREL/PUBCOMP, second CONNECT, SUBSCRIBE to '$x' and malformed filters, PUBLISH with wildcard / invalid UTF-8 / empty topic (outside f/ and g/), QoS 3, frames cut at a generated byte (written at once or byte by byte) followed by close, garbage, an oversized frame, DISCONNECT+close, abrupt close, close of the sending direction only; Evict: an adversary in good standing sends a packet for which the router drops it (v5: topic alias 0, unknown alias, subscription identifier in PUBLISH, subscription identifier 0 - answered by DISCONNECT with a reason code; any version: unsolicited PUBACK/PUBREC/PUBCOMP, PUBREL for an unknown id, SUBSCRIBE to $x) and keeps its socket open, while one or two late bystanders 'iso-w4-0', 'iso-w4-1', ... write their CONNECT right before / behind it without anything awaited in between (so that they are given the slot just lost), must be admitted, optionally subscribe (QoS 0) to f/# or g/# and are then owed every later message, and must be alive at the end; left out when a late signal of an earlier connection cannot be excluded from the code (known finding R5: every stream the client closed must have a finished task, every other ended stream must be open, drained and dropped by the router). Oracle: e5_flow's on the witnesses (exact ordered delivery incl. the adversaries' valid publishes, exact acknowledgements to W1, window, liveness by the quiescence detector), all witness tasks alive and answering PINGREQ at the end, no panic in any connection task or the router. Non-trivial: >=1 adversary connection closed by the broker, stalled or taken over, while the witnesses exchanged >=20 messages.";
 
 const WITNESS_IDS: [&str; 2] = ["iso-w2", "iso-w1"];
 const BYSTANDER_ID: &str = "iso-w3";
@@ -97,6 +105,16 @@ pub enum AdvAct {
     Misbehave(Bad),
     Close { disconnect: bool },
     CloseHalf,
+    /// The adversary (in good standing) sends a packet for which the router drops it and keeps
+    /// its socket open; late bystanders write their CONNECTs around it, nothing is awaited in
+    /// between. `how` % 9: 0 PUBLISH with topic alias 0, 1 empty topic with an unknown alias, 2
+    /// PUBLISH carrying a subscription identifier, 3 SUBSCRIBE with subscription identifier 0
+    /// (v5: the router answers these with a DISCONNECT and a reason code; a v4 adversary uses
+    /// `how` + 4), 4 / 5 / 6 PUBACK / PUBREC / PUBCOMP nobody asked for, 7 PUBREL for an unknown
+    /// id, 8 SUBSCRIBE to $x. `order` % 4: the writes are X B | B X | X B B | B X B (X = the
+    /// offending packet, B = a bystander's CONNECT). `watch`: the bystanders then subscribe
+    /// (QoS 0) to f/# (0) or g/# (1) and are owed what is accepted from then on.
+    Evict { how: u8, order: u8, watch: Option<u8> },
 }
 
 #[derive(Clone, Copy, Debug, PartialEq, Eq, Serialize, Deserialize)]
@@ -151,8 +169,13 @@ fn adv_act() -> BoxedStrategy<AdvAct> {
         6 => bad().prop_map(AdvAct::Misbehave),
         2 => any::<bool>().prop_map(|disconnect| AdvAct::Close { disconnect }),
         1 => Just(AdvAct::CloseHalf),
+        2 => evict(),
     ]
     .boxed()
+}
+
+fn evict() -> BoxedStrategy<AdvAct> {
+    (0u8..9, 0u8..4, prop_oneof![Just(None), Just(Some(0u8)), Just(Some(1u8))]).prop_map(|(how, order, watch)| AdvAct::Evict { how, order, watch }).boxed()
 }
 
 fn iso_step() -> BoxedStrategy<IsoStep> {
@@ -199,7 +222,40 @@ fn iso_case() -> BoxedStrategy<IsoCase> {
             tail
         }),
     );
-    prop_oneof![3 => general, 1 => stalled]
+    // evictions: all three adversaries are connected from the start, are thrown out by the
+    // router one after the other while late bystanders take their slots, and connect again
+    let eviction = (
+        common(),
+        prop_oneof![1 => 1u8..=4, 3 => 5u8..=25],
+        prop::sample::select(vec![[100u8, 100], [80, 95], [45, 65]]),
+        Just(3u8),
+        prop::collection::vec(flow_msg(), 20..=120),
+        (
+            prop::collection::vec((0u8..3, evict(), flow_step(), any::<bool>()), 2..=6),
+            prop::collection::vec(iso_step(), 0..=12),
+        )
+            .prop_map(|(groups, tail)| {
+                let mut steps = Vec::new();
+                for (slot, act, w, clean) in groups {
+                    steps.push(IsoStep::A { slot, act });
+                    steps.push(IsoStep::W(w));
+                    steps.push(IsoStep::A { slot, act: AdvAct::Connect { clean, will: false, storm: 0 } });
+                }
+                steps.extend(tail);
+                steps
+            }),
+    )
+        .prop_map(|(mut c, chunk, mix, initial, msgs, steps)| {
+            // mostly v5 adversaries: only they are told why they are thrown out
+            let (seed, ..) = c.0;
+            for (i, v) in c.0 .3.iter_mut().enumerate() {
+                if (seed >> i) & 3 != 0 {
+                    *v = Ver::V5;
+                }
+            }
+            (c, chunk, mix, initial, msgs, steps)
+        });
+    prop_oneof![3 => general, 1 => stalled, 1 => eviction]
         .prop_map(|(((seed, pub_ver, sub_ver, adv_ver, max_out), (sub_qos, second), qos2, (echo, bystander)), chunk, mix, initial, msgs, steps)| IsoCase {
             seed,
             pub_ver,
@@ -267,6 +323,13 @@ impl Campaign for Isolation {
         obs.class_if(adv.unreleased_qos2 > 0, "adversary_qos2_never_released");
         obs.class_if(adv.barrier_failed > 0, "adversary_in_good_standing_lost_its_connection");
         obs.class_if(adv.barrier_unanswered > 0, "adversary_in_good_standing_left_unanswered");
+        obs.class_if(adv.evictions > 0, "adversary_evicted_by_router_socket_kept_open");
+        obs.class_if(adv.evictions_with_reason > 0, "evicted_with_disconnect_and_reason_code");
+        obs.class_if(adv.late_bystanders > 0, "late_bystander");
+        obs.class_if(adv.late_right_behind > 0 && adv.evictions > 0, "late_bystander_connect_right_behind_the_offending_packet");
+        obs.class_if(adv.late_right_behind > 0 && adv.evictions_with_reason > 0, "late_bystander_behind_an_eviction_with_reason_code");
+        obs.class_if(adv.late_watching > 0, "late_bystander_subscribed");
+        obs.class_if(adv.evict_not_r5_safe > 0, "eviction_left_out_for_r5");
         obs.class_if(case.echo, "publisher_also_subscribed");
         obs.class_if(case.bystander, "bystander_witness");
         obs.class_if(stats.max_window >= WINDOW, "witness_window_reached_100");
@@ -284,6 +347,8 @@ impl Campaign for Isolation {
         obs.count("adversary_connections", adv.connections);
         obs.count("adversary_connections_closed_by_broker", adv.closed_by_broker);
         obs.count("adversary_publishes_owed_to_witnesses", adv.accepted_on_witness_topics);
+        obs.count("late_bystanders", adv.late_bystanders);
+        obs.count("evictions_left_out_for_r5", adv.evict_not_r5_safe);
         obs.count("unschedule_pauses_seen", stats.busy_pauses);
         if r.is_ok() && stats.delivered >= 20 && (adv.closed_by_broker > 0 || adv.stalled > 0 || adv.takeovers > 0) {
             obs.nontrivial(format!(
@@ -357,6 +422,16 @@ struct AdvStats {
     accepted_on_witness_topics: u64,
     optional_on_witness_topics: u64,
     unreleased_qos2: u64,
+    /// adversaries thrown out by the router in an `Evict` step
+    evictions: u64,
+    /// ... with a DISCONNECT carrying a reason code
+    evictions_with_reason: u64,
+    late_bystanders: u64,
+    /// late bystanders whose CONNECT was written right behind the offending packet
+    late_right_behind: u64,
+    late_watching: u64,
+    /// `Evict` steps left out because a late signal of an earlier connection could not be excluded
+    evict_not_r5_safe: u64,
     barrier_failed: u64,
     /// ... of which: the system went quiescent without the PINGRESP
     barrier_unanswered: u64,
@@ -391,9 +466,23 @@ struct Adversaries<'a> {
     stats: &'a mut AdvStats,
     listeners: [Listener; 2],
     slots: Vec<Slot>,
-    /// streams the script is done with (taken over, closed, given up); their tasks are only
-    /// looked at again at the end, for panics
-    graveyard: Vec<Conn>,
+    /// streams the script is done with (taken over, closed, given up); they are never written,
+    /// read or closed again, their tasks are only looked at for `late_ok` and, at the end, for
+    /// panics
+    graveyard: Vec<(Conn, Ended)>,
+    /// late bystanders, with the index of their watch stream in `Run` if they subscribed
+    late: Vec<(Conn, Option<usize>)>,
+}
+
+/// What the script knows about a stream it is done with (see `Adversaries::late_ok`)
+#[derive(Clone, Copy, PartialEq, Eq, Debug)]
+enum Ended {
+    /// The client's socket stays open to the end of the case, everything the client ever wrote
+    /// had been consumed when the script let go of it (a completed PINGREQ barrier, or nothing
+    /// but the CONNECT / the one offending packet was written), and nothing is written again.
+    Silent,
+    /// anything else (closed or half closed by the client, unread bytes possible, given up)
+    Loud,
 }
 
 async fn iso_body(stack: Stack, case: &IsoCase, stats: &mut FlowStats, adv: &mut AdvStats) -> R<()> {
@@ -426,6 +515,7 @@ async fn iso_script(stack: &Stack, case: &IsoCase, stats: &mut FlowStats, adv_st
         listeners: [settings(Ver::V4), settings(Ver::V5)],
         slots: (0..ADV_IDS.len()).map(|_| Slot { conn: None, next_pkid: 1 }).collect(),
         graveyard: Vec::new(),
+        late: Vec::new(),
     };
     // plain connects only: no adversary connection has ended when the bystander connects (R5)
     for slot in 0..(case.initial as usize).min(ADV_IDS.len()) {
@@ -489,6 +579,7 @@ async fn iso_script(stack: &Stack, case: &IsoCase, stats: &mut FlowStats, adv_st
         }
         s_ensure!(!w3.task_finished(), "iso:connection_not_alive_at_the_end", "bystander: task finished");
     }
+    adv.late_alive(&mut run).await?;
     adv.no_panics().await
 }
 
@@ -498,11 +589,62 @@ impl Adversaries<'_> {
     }
 
     /// The script is done with this stream (it stays open unless `close`)
-    fn bury(&mut self, mut c: Conn, close: bool) {
+    fn bury(&mut self, c: Conn, close: bool) {
+        self.bury_as(c, close, Ended::Loud)
+    }
+
+    fn bury_as(&mut self, mut c: Conn, close: bool, ended: Ended) {
         if close {
             c.close();
         }
-        self.graveyard.push(c);
+        self.graveyard.push((c, if close { Ended::Loud } else { ended }));
+    }
+
+    /// May a late bystander connect now without known finding R5 being able to touch it?
+    ///
+    /// R5: router ids are recycled slab keys, so `Event::Disconnect(id)` (also `Ready`) of a
+    /// connection that has ended acts on whoever holds slot `id` when it is handled. A late
+    /// bystander takes a recycled slot on purpose, so no connection that has EVER held a slot
+    /// and has ended may still have such an event to send after the bystander's `Connect` is
+    /// queued. (Connections that are alive hold other ids than the bystander will get and keep
+    /// them until they end; connections made later get ids that are free then.) From the code:
+    ///  * `remote()` sends `Event::Disconnect(id)` after `RemoteLink::start()` has returned,
+    ///    unless it returned `Err(Error::Link(_))`, and it sends it BEFORE it drops the link
+    ///    (= closes the socket) and before the task returns. `start()` returns only through a
+    ///    `?`: `network.read()` / `readv` (end of stream, I/O error, undecodable bytes, keep
+    ///    alive of 900 s), `link_tx.notify()` / `link_rx.wake()` (router channel closed: never
+    ///    within a case), `network.writev()` (peer closed), and `link_rx.exchange()`, whose only
+    ///    error is `LinkError::Recv` -> `Error::Link`: the router has dropped its `Outgoing`,
+    ///    the only sender of the link's signal channel.
+    ///  * So a task that has FINISHED has sent whatever it will ever send: its events are in
+    ///    the router's FIFO channel in front of any `Connect` written later, and are handled
+    ///    before the bystander exists. This covers every stream the client closed, half closed
+    ///    or gave up (`Ended::Loud`): it must have finished (a few yields are granted: the link
+    ///    is woken by the close; one that is blocked in a write towards a client that never
+    ///    reads does not notice a half close and never finishes - then there are no late
+    ///    bystanders in this case any more).
+    ///  * A stream that is `Ended::Silent` has its client socket open for the rest of the
+    ///    case, no unread client bytes and none to come. If the router has dropped the
+    ///    connection (takeover by a later CONNECT of the same id, eviction), `read()` stays
+    ///    pending (nothing to read, no end of stream), a write towards an open socket completes
+    ///    or blocks but does not fail, so the only way out of `start()` is `exchange()` ->
+    ///    `Recv` -> `Error::Link`: no `Disconnect`, ever. (Signals queued before the router
+    ///    dropped its `Outgoing` are received first: the link may still write its last batch -
+    ///    the DISCONNECT with the reason code among it - and answer an `Unschedule` with a late
+    ///    `Ready(id)`; on a later occupant that is a spurious scheduling without effect, and
+    ///    the offender of an `Evict` step is drained by a barrier right before, so that it has
+    ///    nothing queued.) If the router has not dropped it, it is alive.
+    /// With the seeded defect c14d the last step fails for evictions with a reason code:
+    /// `start()` returns `Ok(())` after writing the DISCONNECT and `remote()` sends
+    /// `Disconnect(id)` for the slot the bystander has just been given.
+    async fn late_ok(&mut self) -> bool {
+        for _ in 0..8 {
+            if self.graveyard.iter().all(|(c, ended)| (*ended == Ended::Silent && c.is_open()) || c.task_finished()) {
+                return true;
+            }
+            tokio::task::yield_now().await;
+        }
+        false
     }
 
     /// Reads the adversary's stream (acknowledging forwards like a client would) until `until`
@@ -572,14 +714,16 @@ impl Adversaries<'_> {
             if let Some((old, standing)) = self.slots[slot].conn.take() {
                 self.stats.takeovers += 1;
                 self.stats.takeover_of_stalled += (standing == Standing::Stalled) as u64;
-                self.bury(old, false);
+                // healthy: drained by its last barrier. Stalled: unread bytes are possible
+                self.bury_as(old, false, if standing == Standing::Healthy { Ended::Silent } else { Ended::Loud });
             }
             let mut c = self.stack.open("adversary", &self.listeners[(ver == Ver::V5) as usize]);
             self.stats.connections += 1;
             c.send_packet(&connect).await?;
             if i < storm {
-                // not waited for: whatever becomes of it, the next connect takes over
-                self.bury(c, false);
+                // not waited for: whatever becomes of it, the next connect takes over. Nothing
+                // but the CONNECT is ever written to it
+                self.bury_as(c, false, Ended::Silent);
                 continue;
             }
             match self.wait(&mut c, |m| matches!(m, M::ConnAck(_)), None).await? {
@@ -653,6 +797,7 @@ impl Adversaries<'_> {
                 }
             }
             (AdvAct::Misbehave(bad), Some(standing)) => self.misbehave(slot, bad, standing).await?,
+            (AdvAct::Evict { how, order, watch }, Some(Standing::Healthy)) => self.evict(slot, how, order, watch, run).await?,
             (AdvAct::Close { disconnect }, Some(_)) => {
                 let (mut c, _) = self.slots[slot].conn.take().unwrap();
                 if disconnect {
@@ -780,14 +925,161 @@ impl Adversaries<'_> {
         Ok(())
     }
 
+    /// `AdvAct::Evict`
+    async fn evict(&mut self, slot: usize, how: u8, order: u8, watch: Option<u8>, run: &mut Run<'_>) -> R<()> {
+        if !self.late_ok().await {
+            self.stats.evict_not_r5_safe += 1;
+            self.stats.skipped += 1;
+            return Ok(());
+        }
+        // the offender has read everything it was sent and is owed nothing
+        if !self.barrier(slot, Vec::new(), None).await?.0 {
+            return Ok(());
+        }
+        let ver = self.ver(slot);
+        let how = if ver == Ver::V4 && how % 9 < 4 { how % 9 + 4 } else { how % 9 };
+        let publish = |topic: &str, props: Props| M::Publish(md::Publish { dup: false, qos: 0, retain: false, topic: Txt::lit(topic), pkid: 0, payload: Bin::Lit(b"offence".to_vec()), props });
+        let offence = match how {
+            0 => publish("x/y", Props { topic_alias: Some(0), ..Props::default() }),
+            1 => publish("", Props { topic_alias: Some(7), ..Props::default() }),
+            2 => publish("x/y", Props { subscription_ids: vec![5], ..Props::default() }),
+            3 => {
+                let M::Subscribe(mut s) = subscribe(8, &["x/#"], 0) else { unreachable!() };
+                s.props.subscription_ids = vec![0];
+                M::Subscribe(s)
+            }
+            4 => M::PubAck(ack(77)),
+            5 => M::PubRec(ack(77)),
+            6 => M::PubComp(ack(77)),
+            7 => M::PubRel(ack(77)),
+            _ => subscribe(8, &["$x"], 0),
+        };
+        let offence = reference::encode(ver, &offence);
+        let (mut offender, _) = self.slots[slot].conn.take().unwrap();
+
+        // the writes, with nothing in between that lets a connection task run: the tasks are
+        // polled in the order in which they were woken / spawned, so the router finds the events
+        // in this order
+        let writes: &[bool] = match order % 4 {
+            0 => &[false, true],
+            1 => &[true, false],
+            2 => &[false, true, true],
+            _ => &[true, false, true],
+        };
+        let mut late = Vec::new();
+        let mut offended = false;
+        for is_bystander in writes {
+            if !is_bystander {
+                offender.send_now(&offence).await;
+                offended = true;
+                continue;
+            }
+            let n = self.late.len() + late.len();
+            let b_ver = if (self.case.seed >> (n % 60)) & 1 == 0 { Ver::V4 } else { Ver::V5 };
+            let connect = M::Connect(md::Connect { keep_alive: 600, client_id: Txt::lit(&format!("iso-w4-{n}")), clean: true, will: None, login: None, props: Props::default() });
+            let mut b = self.stack.open("late bystander", &Listener::plain(b_ver));
+            b.auto_ack = false;
+            b.send_now(&reference::encode(b_ver, &connect)).await;
+            self.stats.late_bystanders += 1;
+            self.stats.late_right_behind += offended as u64;
+            late.push(b);
+        }
+
+        // every bystander is admitted, and subscribes if the step says so
+        for mut b in late {
+            match self.stack.next_or_quiescent(&mut b).await? {
+                Waited::Frame(M::ConnAck(a)) if a.code == 0 => {}
+                other => return late_failure(&mut b, other, "connack").await,
+            }
+            let mut watching = None;
+            if let Some(which) = watch {
+                let which = which as usize % FILTERS.len();
+                let mut request = reference::encode(b.ver, &subscribe(1, &[FILTERS[which]], 0));
+                request.extend(reference::encode(b.ver, &M::PingReq));
+                b.send(&request).await?;
+                loop {
+                    match self.stack.next_or_quiescent(&mut b).await? {
+                        Waited::Frame(M::SubAck(_)) => {}
+                        Waited::Frame(M::PingResp) => break,
+                        other => return late_failure(&mut b, other, "suback").await,
+                    }
+                }
+                // nothing was published meanwhile: it is owed what is accepted from here on
+                watching = Some(run.watch(FILTERS[which].as_bytes()[0]));
+                self.stats.late_watching += 1;
+            }
+            self.late.push((b, watching));
+        }
+
+        // the offender: thrown out (its socket stays open to the end of the case) or tolerated
+        match self.wait(&mut offender, |_| false, None).await? {
+            Barrier::Closed { .. } => {
+                self.stats.closed_by_broker += 1;
+                self.stats.violation_closed += 1;
+                self.stats.evictions += 1;
+                self.stats.evictions_with_reason += offender.log.iter().any(|m| matches!(m, M::Disconnect(_))) as u64;
+                self.bury_as(offender, false, Ended::Silent);
+            }
+            _ => {
+                offender.send_now(&reference::encode(ver, &M::PingReq)).await;
+                match self.wait(&mut offender, |m| matches!(m, M::PingResp), None).await? {
+                    Barrier::Done { .. } => {
+                        self.stats.violation_survived += 1;
+                        self.slots[slot].conn = Some((offender, Standing::Healthy));
+                    }
+                    _ => self.bury(offender, true),
+                }
+            }
+        }
+        Ok(())
+    }
+
+    /// At the end: every late bystander has received what it is owed, answers a PINGREQ and its
+    /// task is running
+    async fn late_alive(&mut self, run: &mut Run<'_>) -> R<()> {
+        for (b, watching) in self.late.iter_mut() {
+            let mut pinged = false;
+            loop {
+                let owed = watching.is_some_and(|w| run.watched_backlog(w));
+                if !owed && !pinged {
+                    b.send_packet(&M::PingReq).await?;
+                    pinged = true;
+                }
+                match (self.stack.next_or_quiescent(b).await?, *watching) {
+                    (Waited::Frame(M::Publish(p)), Some(w)) => run.on_watched(w, &p)?,
+                    (Waited::Frame(M::PingResp), _) if pinged => break,
+                    (other, _) => return late_failure(b, other, if owed { "backlog" } else { "pingresp" }).await,
+                }
+            }
+            s_ensure!(!b.task_finished(), "iso:connection_not_alive_at_the_end", "late bystander: task finished");
+        }
+        Ok(())
+    }
+
     /// A connection task may end in any way except a panic
     async fn no_panics(&mut self) -> R<()> {
-        let mut all: Vec<Conn> = self.graveyard.drain(..).collect();
+        let mut all: Vec<Conn> = self.graveyard.drain(..).map(|(c, _)| c).collect();
         all.extend(self.slots.iter_mut().filter_map(|s| s.conn.take().map(|(c, _)| c)));
+        all.extend(self.late.drain(..).map(|(c, _)| c));
         for c in all.iter_mut() {
             c.check_not_panicked().await?;
         }
         Ok(())
+    }
+}
+
+/// A late bystander did not get the frame it was owed (`owed`)
+async fn late_failure<T>(b: &mut Conn, got: Waited, owed: &str) -> R<T> {
+    match got {
+        Waited::Closed => {
+            b.check_not_panicked().await?;
+            Err(Stop::Fail(Failure::new(
+                "iso:late_bystander_closed",
+                format!("the broker closed the connection of a well-behaved client that connected right after another client was thrown out (waiting for: {owed}); it had read {:?}", b.log.iter().map(|m| m.type_name()).collect::<Vec<_>>()),
+            )))
+        }
+        Waited::Quiescent => Err(Stop::Fail(Failure::new(format!("iso:stalled:late_bystander:{owed}_owed"), "the system is quiescent and a late bystander is still owed a frame"))),
+        Waited::Frame(m) => Err(Stop::Fail(Failure::new(format!("iso:late_bystander:unexpected_frame:{}", m.type_name()), format!("a late bystander read {m:?} while waiting for: {owed}")))),
     }
 }
 
